@@ -59,7 +59,7 @@ def worker_init():
 
 def cases(seed, tier):
     rng = random.Random(f"C02:{seed}")
-    n = 500 if tier == "quick" else 30000
+    n = 1200 if tier == "quick" else 30000
     out = []
     for i in range(n):
         r = rng.random()
